@@ -147,6 +147,19 @@ CLAIMED['C04'] = (
     'is not covered - see evidence not_covered.',
     'contract-based deductive verification (encode-then-parse symbolic execution over a byte trace, z3), native replay')
 
+CLAIMED['C03'] = (
+    'DESIGN.md 4 C03',
+    'Reduced scope: the two post-encode offset equations. Proof for all positions/sizes/flags: after '
+    'TrackFragmentRunBox.post_encode the data-offset flag is set and base_data_offset + data_offset = moof.position + '
+    'moof.size + mdat.header_size (the first payload byte), other flags unchanged; after '
+    'SampleAuxiliaryInformationOffsetsBox.post_encode the single offset is senc.position + first sample offset - base data '
+    'offset (moof position when the tfhd has none), unless the saio bug-compatibility option is set, in which case it is '
+    'left as it was.',
+    'Trusted: pyvc encoding; the box tree navigation (find_atom / find_peer / find_child) and the re-encode calls are abstract; '
+    'region: base data offset not behind the payload (the code asserts). Payload byte identity, size nesting, sample-size sums, '
+    'PIFF / emsg insertion and the handler composition are not covered.',
+    'contract-based deductive verification (AST->VC generator, z3 + cvc5), native replay')
+
 NOT_APPLICABLE = {
     'C05': 'XML documents come out of Jinja templates rendered by an external engine; no function contract reaches them and the app cannot be instantiated offline (flask_login missing).',
     'C07': 'Identity of string transducers (quote_plus, regex date parsing, split) over a registry built with getattr; SMT string solvers leave these undecided; a proof over only int/bool options would not decide the property.',
@@ -156,7 +169,7 @@ NOT_APPLICABLE = {
     'C18': 'Whole-system differential property of the validator over generated streams.',
 }
 PENDING = {k: 'contracts not yet built in this revision (see DESIGN.md build order)'
-           for k in ('C01', 'C03', 'C04', 'C06', 'C08', 'C09', 'C11', 'C12', 'C13', 'C16', 'C19', 'C20')}
+           for k in ()}
 
 
 def main():
